@@ -61,7 +61,7 @@ ANCHORS = ["glue.core.fixed_resolution_buffer:compute_fixed_resolution_buffer",
            "glue.viewers.image.state:ImageViewerState.numpy_slice_aggregation_transpose"]
 
 EPS = 1e-9
-MODES = ["axis", "axis", "axis", "chain", "coupled", "coupled", "world"]
+MODES = ["axis", "axis", "axis", "chain", "coupled", "coupled", "world", "world"]
 N_BLOCKS = {"quick": 640, "thorough": 6400}
 N_VIEWER = {"quick": 192, "thorough": 1600}
 WORLDS_PER_BLOCK = 4
@@ -350,7 +350,9 @@ def build_world(rng, viewer=False):
         descr = {"mode": mode, "T": list(T.shape), "big": True}
 
     if mode == "world":
-        kinds = ["diagonal", "coupled_symmetric", "full"]
+        # all coupling patterns (the coordinate shortcuts that were wrong for triangular / permuted matrices are repaired):
+        # permuted = a transposed cube, triangular = sheared, full = every world axis depends on every pixel axis
+        kinds = ["diagonal", "coupled_symmetric", "full", "coupled_triangular", "coupled_triangular", "permuted", "permuted"]
         kT = rng.choice(kinds)
         Mt = affine_matrix(rng, ndT, kT)
         unit = rng.choice([1.0, 1.0, 1e-6, 1e3, 1e-10])     # world units: the same physical frame in other units / origin
@@ -375,6 +377,7 @@ def build_world(rng, viewer=False):
             X.c = H[:ndT, ndT][::-1].copy()
             fill_components(rng, X, coords=AffineCoordinates(Mx), dask=(with_dask and name == "A"))
             descr[name] = {"shape": list(X.shape), "matrix": Mx.tolist(), "kinds": [kT, kX]}
+            descr["reference_matrix_kind"] = kT
             for i in range(ndT):
                 links.append(LinkSame(T.data.world_component_ids[i], X.data.world_component_ids[i]))
             srcs.append(X)
@@ -1067,6 +1070,49 @@ def run_history(ctx, world, case_tag, resident):
     run = None
     step_no = 0
     attribute_only_tail = False
+    if world.ds["T"].ndim >= 2 and rng.random() < (0.7 if world.mode == "world" else 0.15):
+        # slice walk: under one id, a scalar slice index is stepped on each dimension of the reference in turn while the
+        # other dimensions stay ranged (what an image viewer does when the user drags a slider, then changes the axes)
+        T = world.ds["T"]
+        dname = rng.choice(["A", "B", "A", "B", "T"])
+        D = world.ds[dname]
+        what = rand_what(rng, D)
+        ctx.count("slice_walks")
+        ctx.count("slice_walks_%s" % world.mode)
+        if world.mode == "world":
+            ctx.count("slice_walks_reference_matrix_%s" % world.descr.get("reference_matrix_kind"))
+        dims = list(range(T.ndim))
+        if rng.random() < 0.3:
+            rng.shuffle(dims)
+        for i in dims:
+            n = T.shape[i]
+            start = rng.randrange(n)
+            vals = [start, (start + 1) % n, (start + 2) % n][:rng.randint(2, 3)]
+            if rng.random() < 0.3:
+                vals.append(vals[0])
+            if rng.random() < 0.3 and D is not T:
+                # step towards where the source actually is
+                m = [gen_bound(rng, world, T, D, i, "scalar") for _ in range(2)]
+                vals = vals[:1] + m + vals[1:]
+            for v in vals:
+                bounds = [(0, T.shape[k] - 1, T.shape[k]) if rng.random() < 0.7 else rand_range(rng, T.shape[k])
+                          for k in range(T.ndim)]
+                bounds[i] = v
+                req = {"data": dname, "target": "T", "bounds": bounds, "what": what, "broadcast": True}
+                prev = last.get(0)
+                if prev is not None and prev["data"] == dname and prev["target"] == "T":
+                    # keep the ranges of the previous request on the dimensions that stay ranged: only the slice moves
+                    for k in range(T.ndim):
+                        if k != i and isinstance(prev["bounds"][k], tuple):
+                            req["bounds"][k] = prev["bounds"][k]
+                step = "slice_walk_step_dim%d" % min(i, 2) if prev is not None else "first"
+                do_step(ctx, world, ids, 0, req, step, prev, resident, step_no)
+                ctx.count("slice_walk_requests")
+                last[0] = req
+                past.append(req)
+                step_no += 1
+            if rng.random() < 0.3:
+                what = rand_what(rng, D)
     while step_no < nsteps:
         slot = 0 if rng.random() < 0.7 else 1
         req = None
@@ -1526,6 +1572,11 @@ def floors(counters, tier):
     for k, n in sorted(need.items()):
         if c(k, 0) < n:
             out.append("fewer than %d %s" % (n, k))
+    for k in ("coupled_triangular", "permuted", "full", "coupled_symmetric"):
+        if c("slice_walks_reference_matrix_%s" % k, 0) < 4:
+            out.append("fewer than 4 slice walks over a world-linked reference with a %s coordinate matrix" % k)
+    if c("slice_walk_requests", 0) < 200:
+        out.append("fewer than 200 slice-walk requests")
     if c("link_changes_set_links", 0) + c("link_changes_remove_add", 0) < 4:
         out.append("fewer than 4 histories ending with a change of the links")
     if c("oracle_model_says_unlinked_but_array_returned", 0) > 0:
